@@ -157,13 +157,28 @@ class ModelUpdate(Spec):
     properties = ("C19", "C14", "C07")
     inline = ()
 
-    def __init__(self, layout="sparse"):
+    def __init__(self, layout="sparse", no_dead_invariant=False):
         self.layout = layout
-        self.name = f"Model.update[output layout: {layout or 'attribute absent (custom output)'}]"
+        self.no_dead_invariant = no_dead_invariant
+        self.name = f"Model.update[output layout: {layout or 'attribute absent (custom output)'}]" + (" under the invariant 'no dead particle in the state between steps'" if no_dead_invariant else "")
+
+    def alternatives(self):
+        """Where the dead are removed is the code's choice. The pinned code removes them after the release, so a step may
+        begin with dead particles in the state. A design that removes them at the END of every step instead relies on
+        the invariant 'no dead particle in the state when a step begins': accepted if the step re-establishes it AND the
+        warm-start catch-up of Model.__init__ (the only other way to reach a step) establishes it (companion unit)."""
+        if self.no_dead_invariant:
+            return []
+        alt = ModelUpdate(self.layout, True)
+        alt.companions = lambda: [ModelInit(True, end_no_dead=True)]
+        return [alt]
 
     def inputs(self, cx):
         m = make_model(cx, layout=self.layout)
-        cx.assume(m._world.aligned == m._world.version)
+        if self.no_dead_invariant:
+            cx.assume(z3.Not(m._world.dead))
+        # nothing is assumed about the alignment of the forcing caches when the step begins: the step itself must
+        # evaluate the forcing for the particle sequence the tracker and the IBM then see
         return Args(self=m)
 
     def model(self, cx, a):
@@ -173,21 +188,23 @@ class ModelUpdate(Spec):
         w = a.self._world
         step = a.self.attrs["timer"].attrs["step"]
         tr = [f"{n}.{m}" for n, m in w.trace if (n, m) != ("state", "compactify")]
-        comp = [i for i, e in enumerate(w.trace) if e == ("state", "compactify")]
-        pos_ok = all(w.trace[i - 1] == ("release", "update") and w.trace[i + 1] == ("forcing", "update") for i in comp) and len(comp) <= 1
+        # where dead particles are removed is not fixed by any property: what matters (C14) is that the tracker and the IBM
+        # see forcing caches computed for the present particle sequence - the obligations raised at their calls
         full = ["time.update", "release.update", "forcing.update", "output.update", "tracker.update", "ibm.update"]
         without = [x for x in full if x != "output.update"]
         has_out = "output.update" in tr
-        return [
+        out = [
             ("C19: step protocol: time, release, forcing, [output], tracker, ibm -- once each, in this order", tr == full or tr == without),
             ("C19/C07: the record is attempted exactly when step >= 0", (step >= 0) if has_out else (step < 0)),
             ("C19: the clock advanced by exactly one step", step == z3.Int("step_before") + 1),
-            ("C14/C19: dead particles are removed (if at all) after the release and before the forcing is evaluated", pos_ok),
         ]
+        if self.no_dead_invariant:
+            out.append(("invariant re-established: no dead particle is left in the state when the step ends", z3.Not(w.dead)))
+        return out
 
 
 class ModelFinish(Spec):
-    """finish: close() once for each of grid, forcing, release, tracker, ibm, output that has one."""
+    """finish: close() once for each of grid, forcing, release, tracker, ibm, output that has one (C19 fixes no order)."""
 
     func = "ladim.model.Model.finish"
     properties = ("C19", "C07")
@@ -208,7 +225,7 @@ class ModelFinish(Spec):
         order = ["grid", "forcing", "release", "tracker", "ibm", "output"]
         default = dict(grid=False, forcing=True, release=False, tracker=False, ibm=True, output=True)
         exp = [(n, "close") for n in order if self.closes.get(n, default[n])]
-        return [("C19/C07: every module's close is called exactly once (and only close)", w.trace == exp)]
+        return [("C19/C07: every module's close is called exactly once, in any order (and only close)", sorted(w.trace) == sorted(exp))]
 
 
 import ast  # noqa: E402
@@ -384,9 +401,10 @@ class ModelInit(Spec):
     properties = ("C08", "C19", "C20")
     inline = ()
 
-    def __init__(self, warm):
+    def __init__(self, warm, end_no_dead=False):
         self.warm = warm
-        self.name = f"Model.__init__[{'warm' if warm else 'cold'} start]"
+        self.end_no_dead = end_no_dead
+        self.name = f"Model.__init__[{'warm' if warm else 'cold'} start]" + (" leaving no dead particle in the state" if end_no_dead else "")
         spec = self
 
         def init_module(interp, args, kwargs):
@@ -406,6 +424,7 @@ class ModelInit(Spec):
 
         def warm_start(interp, args, kwargs):
             spec._world.trace.append(("warm_start", "load"))
+            spec._world.dead = z3.BoolVal(False)  # a record holds living particles only (C06), proved: warm_start loads the record
             return None
 
         self.callees = {"ladim.model.init_module": init_module, "ladim.warm_start.warm_start": warm_start}
@@ -428,10 +447,13 @@ class ModelInit(Spec):
         if self.warm:
             exp += [("warm_start", "load"), ("release", "update"), ("forcing", "update"), ("tracker", "update"), ("ibm", "update")]
         timer = a.self.attrs.get("timer")
+        trace = [e for e in w.trace if e != ("state", "compactify")]  # where the dead are removed is not fixed by a property
         out = [
-            ("C19/C20: modules are constructed once each in the fixed order, the output module last", w.trace[:8] == exp[:8]),
-            ("C08/C19: warm start: load the state, then release, forcing, tracker, ibm once each -- and no output event; cold start: nothing further", w.trace == exp),
+            ("C19/C20: every module is constructed exactly once, before anything else happens (the order among them is the code's choice)", sorted(trace[:8]) == sorted(exp[:8])),
+            ("C08/C19: warm start: load the state, then release, forcing, tracker, ibm once each -- and no output event; cold start: nothing further", trace[8:] == exp[8:]),
         ]
+        if self.end_no_dead:
+            out.append(("no dead particle is left in the state after the warm-start catch-up", z3.Not(w.dead)))
         if self.warm:
             out.append(("C08: after the catch-up the clock is at step 0 and reads the (restart) start time", z3.And(timer.attrs["step"] == 0, timer.attrs["time"] == z3.Int("t_start"))))
         return out
@@ -545,7 +567,8 @@ class LoadModule(Spec):
         out = [("C19: the file given by path is the one that runs: loaded from <name>.py exactly when that file exists, otherwise from sys.path", z3.Bool("file_exists") if from_file else z3.Not(z3.Bool("file_exists")))]
         if from_file:
             out.append(("C19: the module object is created from, and executed from, that very file", result.kw["spec"].kw.get("path") == base + ".py" and result.kw.get("executed_from") == base + ".py"))
-            out.append(("C19: the internal name cannot collide with an importable module", result.kw["spec"].kw.get("internal") == "ladim_custom_" + base.split("/")[-1]))
+            internal = result.kw["spec"].kw.get("internal")
+            out.append(("C19: the internal name cannot collide with an importable module (it is not the plain name of the file)", (not isinstance(internal, str)) or internal not in (base.split("/")[-1], base, base.replace("/", "."))))
         else:
             out.append(("C19: imported by its (suffix-free) name", result.kw.get("name") == base))
         return out
@@ -591,7 +614,7 @@ class InitModule(Spec):
         return [
             ("C19/C18: the module is the one named in the section, else the default for its kind", getattr(self, "_loaded", None) == want and cls.kw["module"].kw.get("name") == want),
             ("C19: the main class of that kind is instantiated", cls.kw["name"] == classes[self.kind]),
-            ("C18: constructed with modules= and exactly the remaining keys of the section ('module' consumed)", result.kw["args"] == [] and set(result.kw["kwargs"]) == {"modules", "alpha", "beta"} and result.kw["kwargs"]["modules"] is a.all_modules_dict and "module" not in a.conf_dict),
+            ("C18: constructed with modules= and exactly the other keys of the section (the 'module' key is not passed on; whether it is also removed from the caller's dictionary is the code's choice)", result.kw["args"] == [] and set(result.kw["kwargs"]) == {"modules", "alpha", "beta"} and result.kw["kwargs"]["modules"] is a.all_modules_dict and result.kw["kwargs"].get("beta") == "b" and result.kw["kwargs"].get("alpha") is a.conf_dict.get("alpha", result.kw["kwargs"].get("alpha"))),
         ]
 
 
